@@ -317,6 +317,16 @@ def once(R, P):
                     st_ = [e for e in g.field_accesses(rec="aws_xml_parser", field="error", modes=("w",)) if e.blk in seen and ev_dominates(g, e, r_)]
                     if st_:
                         continue
+                if v is not None and v["k"] == "var" and v.get("sc") == "local":
+                    # a single-exit function returns a result variable: decide its value on the paths that took the failing edge (NUM)
+                    try:
+                        nm_ = Num(g, P, C04.ParserHooks(), max_paths=6000)
+                        sts_ = [st_ for st_ in nm_.states_at({r_.node["id"]}).get(r_.node["id"], []) if any(tr_[0] == b.id and tr_[1] in start for tr_ in st_.trail)]
+                        vals_ = [nm_.val(r_.node["a"][0], st_) for st_ in sts_]
+                        if sts_ and all(x_ is not None and ((x_.is_const() and x_.cval() != 0) or entails(st_, x_ + 1) or entails(st_, Poly.const(1) - x_)) for x_, st_ in zip(vals_, sts_)):
+                            continue
+                    except Limit:
+                        pass
                 bad.append("line %d returns %s" % (r_.node["loc"][0], g.show(v) if v is not None else "nothing"))
         R.check(not bad, "ERR-CHECKED", "%s:callback-failure-fails-the-parse" % g.name, where(g, ind[0]), "after a non-zero callback result only error returns are reachable",
                 "a callback that reports failure (an abort, or a failed body read) does not make %s fail (%s): aws_xml_parse returns success for a document the callback rejected or that lacks a closing tag" % (g.name, "; ".join(bad[:2])))
@@ -467,6 +477,69 @@ def decl(R, P):
     R.check(okm, "DECL", "empty-element-marker", where(f, em[0]) if em else f.name, "is_empty is set exactly when the declaration ends in '/'")
 
 
+def _same_name_by_value(P, f):
+    """(ok, reason): in s_advance_to_closing_tag the nesting depth goes up exactly for the three kinds of name terminator"""
+    from sa.num import feasible
+
+    class H(XmlHooks):
+        def call(self, num, st, e, args):
+            if (e.get("callee") or "") == "aws_isspace" and args and args[0] is not None:
+                r = Poly.atom(num.fresh(st, "isspace", None, (0, 1)))
+                st.notes["isspace"] = list(st.notes.get("isspace", [])) + [(args[0], r)]
+                return r
+            return XmlHooks.call(self, num, st, e, args)
+    incs = [el for b in f.blocks.values() for el in b.elems if el["k"] == "un" and el["op"] in ("post++", "pre++") and "depth" in f.show(el)]
+    if len(incs) != 1:
+        return False, "depth increment not found"
+    inc = incs[0]
+    num = Num(f, P, H(), max_paths=30000)
+    inc_blk = num.elem_of.get(inc["id"], (None,))[0]
+    # the statement both arms reach next: the first element of the increment block's successor
+    succ = [s_ for s_ in f.blocks[inc_blk].succ if s_ is not None]
+    if len(succ) != 1 or not f.blocks[succ[0]].elems and not f.blocks[succ[0]].succ:
+        return False, "join after the increment not found"
+    join = succ[0]
+    while not f.blocks[join].elems and len([x for x in f.blocks[join].succ if x is not None]) == 1:
+        join = [x for x in f.blocks[join].succ if x is not None][0]
+    if not f.blocks[join].elems:
+        return False, "join after the increment has no statement"
+    jid = f.blocks[join].elems[0]["id"]
+    try:
+        sts = num.states_at({inc["id"], jid})
+    except Limit as ex:
+        return False, str(ex)
+
+    def name_end(st):
+        ks = [k for k in st.env if k.startswith("v:") and k.split("$")[-1].replace("v:", "") == "name_end"]
+        return st.env[ks[0]] if len(ks) == 1 else None
+    n_t = n_f = 0
+    for st in sts.get(inc["id"], []):
+        ne = name_end(st)
+        if ne is None:
+            return False, "name_end not tracked"
+        sp = [r for a, r in st.notes.get("isspace", []) if entails(st, a - ne) and entails(st, ne - a)]
+        is_c = any(entails(st, ne - c) and entails(st, Poly.const(c) - ne) for c in (62, 47))
+        is_sp = bool(sp) and not feasible(st, [sp[-1], -sp[-1]])  # the white-space verdict cannot be 0 here
+        if not (is_c or is_sp):
+            return False, "the depth is incremented for a byte that is neither '>', '/' nor white space"
+        n_t += 1
+    for st in sts.get(jid, []):
+        if any(tr_[0] == inc_blk or tr_[1] == inc_blk for tr_ in st.trail[-4:]):
+            continue
+        ne = name_end(st)
+        if ne is None:
+            continue
+        # reached without the increment: none of the three may hold
+        for c in (62, 47):
+            if feasible(st, [ne - c, Poly.const(c) - ne]):
+                return False, "an opening tag whose name is followed by %r does not increment the depth (trail %s, inc block %s, join %s)" % (chr(c), st.trail[-8:], inc_blk, join)
+        sp = [r for a, r in st.notes.get("isspace", []) if entails(st, a - ne) and entails(st, ne - a)]
+        if not sp or not (entails(st, sp[-1]) and entails(st, -sp[-1])):
+            return False, "white space after the name does not increment the depth"
+        n_f += 1
+    return (n_t >= 3 and n_f >= 1), "states: %d incrementing, %d not" % (n_t, n_f)
+
+
 def terminators(R, P):
     f = P.fn("s_advance_to_closing_tag")
     if not R.require(f is not None, "s_advance_to_closing_tag not found"):
@@ -491,8 +564,17 @@ def terminators(R, P):
     for c in f.calls("aws_isspace"):
         if f.show(RU.arg(f, c.node, 0)).split("$")[-1] == "name_end" and any(c.blk == p_ or c.blk in f.preds().get(found.blk, ()) for p_ in blk_chain):
             calls.add("aws_isspace")
-    R.check(consts == {ord(">"), ord("/")} and calls == {"aws_isspace"}, "NEST-TERMINATORS", "same-name-test", where(f, found), "a nested opening of the same name is one followed by '>', '/' or white space",
-            "the same-name nesting test accepts name terminators %s + %s, but a tag name ends at '>', '/' or white space (the declaration is split on ' ')" % (sorted(chr(c) for c in consts), sorted(calls)))
+    ok_syn = consts == {ord(">"), ord("/")} and calls == {"aws_isspace"}
+    if not ok_syn:
+        # however the test is written (a predicate helper, a switch): decide it on the values.  The nesting depth is incremented
+        # exactly for name_end in {'>', '/'} or aws_isspace(name_end) != 0 (NUM, states before and around the increment)
+        okn, why = _same_name_by_value(P, f)
+        if okn:
+            R.ok("NEST-TERMINATORS", "same-name-test", where(f, found), "the depth is incremented exactly when the byte after the name is '>', '/' or white space (NUM)")
+            consts, calls, ok_syn = {ord(">"), ord("/")}, {"aws_isspace"}, None
+    if ok_syn is not None:
+      R.check(consts == {ord(">"), ord("/")} and calls == {"aws_isspace"}, "NEST-TERMINATORS", "same-name-test", where(f, found), "a nested opening of the same name is one followed by '>', '/' or white space",
+              "the same-name nesting test accepts name terminators %s + %s, but a tag name ends at '>', '/' or white space (the declaration is split on ' ')" % (sorted(chr(c) for c in consts), sorted(calls)))
     import re as _re
     plain = lambda t_: _re.sub(r"[A-Za-z_][A-Za-z0-9_]*\$\d+\$", "", t_)  # locals of an expanded helper keep their own names
     ne = [e for e in f.all_events() if e.kind == "decl" and any(v["n"].split("$")[-1] == "name_end" for v in e.node["vars"])]
